@@ -40,7 +40,10 @@ def gen(rng, tier):
     prof.depth = rng.choice([0, 1])
     prof.handlers = rng.choice([['cont', 'rewait', 'ret', 'other', 'raise', 'none'],
                                 ['cont', 'rewait', 'rewait', 'other'], ['cont'], ['rewait', 'none', 'ret']])
-    return gen_program(rng, prof)
+    case = gen_program(rng, prof)
+    from .c01 import _maybe_long_run
+    _maybe_long_run(rng, tier, case)
+    return case
 
 
 def check(log, quiescent):
@@ -165,8 +168,8 @@ def run(case):
     from ..core import san
     w = setup_world(case)
     env = w.env
-    steps = drive(w, case.get('drive', [['run']]), max_steps=4000)
-    quiescent = env.peek() == float('inf') and steps < 4000
+    steps = drive(w, case.get('drive', [['run']]), max_steps=4000 + (1200000 if case.get('long_run') else 0))
+    quiescent = env.peek() == float('inf') and steps < 4000 + (1200000 if case.get('long_run') else 0)
     viol, stats, nontrivial = check(env.log, quiescent)
     # clause 4 (detachment, co-waiters keep the outcome, later re-yield) is the waiter bookkeeping of C02
     final = {}
